@@ -84,7 +84,15 @@ func genC10(t *rapid.T) c10Case {
 		if !dup {
 			c.Slots = append(c.Slots, c04Slot{Addr: a, ID: id})
 			if rapid.Bool().Draw(t, "sameexp") && len(c.Slots) < nk && id < 65535 {
-				c.Slots = append(c.Slots, c04Slot{Addr: a, ID: id + 1})
+				clash := false
+				for _, s := range c.Slots {
+					if string(s.Addr) == string(a) && s.ID == id+1 {
+						clash = true // two announcers must never share a key
+					}
+				}
+				if !clash {
+					c.Slots = append(c.Slots, c04Slot{Addr: a, ID: id + 1})
+				}
 			}
 		}
 	}
@@ -143,6 +151,13 @@ func observedVersion(id uint16, n int, elem func(i int) uint16, declaredID, decl
 func runC10(c *c10Case) (v verdict, sig string, err error) {
 	if len(c.Slots) < 1 || len(c.Versions) != len(c.Slots) {
 		return v, "", fmt.Errorf("bad case")
+	}
+	for i := range c.Slots {
+		for j := i + 1; j < len(c.Slots); j++ {
+			if string(c.Slots[i].Addr) == string(c.Slots[j].Addr) && c.Slots[i].ID == c.Slots[j].ID {
+				return v, "", fmt.Errorf("bad case: two announcers for one key")
+			}
+		}
 	}
 	maxV := 0
 	for _, nv := range c.Versions {
